@@ -103,9 +103,9 @@ def tnl_contract(canary=True):
 # so the call-site obligation is `<fn>.precondition` (count within the window, C03).
 def pos_stubs():
     return [
-        (r'^tao::pegtl::internal::bump\(', bump_small_contract(False)),
-        (r'^tao::pegtl::internal::bump_in_this_line\(', itl_contract(False)),
-        (r'^tao::pegtl::internal::bump_to_next_line\(', tnl_contract(False)),
+        (r'^tao::pegtl::internal::bump\(', bump_small_contract(False), 'opt'),
+        (r'^tao::pegtl::internal::bump_in_this_line\(', itl_contract(False), 'opt'),
+        (r'^tao::pegtl::internal::bump_to_next_line\(', tnl_contract(False), 'opt'),
     ]
 
 
